@@ -100,6 +100,12 @@ Section Seg.
     - rewrite app_nil_r in Hp. subst p. exact done_ok.
   Qed.
 
+  Lemma rl_amount_bounds k h : (0 < h)%Z -> (1 <= rl_amount k h)%nat /\ (Z.of_nat (rl_amount k h) <= h)%Z.
+  Proof.
+    intros Hh. unfold rl_amount. destruct (k =? 0)%N; [lia|].
+    pose proof (Z.mod_pos_bound (Z.of_N (k - 1)) h Hh). lia.
+  Qed.
+
   Lemma rl_inv_step s q n : rl_inv s q -> rl_inv (accept s (firstn n q)) (skipn n q).
   Proof.
     intros [[-> ->]|[p [-> Hp]]]; right.
@@ -125,7 +131,7 @@ Section Seg.
       + destruct (rl_inv_unfinished s (c :: q) Hinv ltac:(discriminate)) as [Hnf [Hh1 Hh2]].
         rewrite Hnf.
         destruct (Z.of_nat (length (c :: q)) <? hint s)%Z eqn:E; [apply Z.ltb_lt in E; lia|].
-        set (n := S (k mod Z.to_nat (hint s))).
+        destruct (rl_amount_bounds k (hint s) Hh1) as [Hn1 _]. set (n := rl_amount k (hint s)) in *.
         specialize (IH _ _ (rl_inv_step s (c :: q) n Hinv)).
         destruct (read_loop St accept hint finished pol (accept s (firstn n (c :: q))) (skipn n (c :: q)))
           as [s' lo|s' a av|s' rem]; [exact IH|exact IH|].
